@@ -4,10 +4,10 @@ package main
 // counter, for the complete vocabulary of the pinned parser in every position.
 
 import (
-	"io"
 	"context"
 	"encoding/json"
 	"fmt"
+	"io"
 	"os"
 	"sort"
 	"strings"
@@ -27,17 +27,17 @@ import (
 )
 
 type planCase struct {
-	ID       int    `json:"id"`
-	Query    string `json:"query"`
-	Range    bool   `json:"range"`
-	Fallback bool   `json:"fallback"`
-	Outcome  string `json:"outcome"` // Native | Fallback | ErrUnsupported | ErrOther
-	DFalse   int    `json:"d_false"`
-	DTrue    int    `json:"d_true"`
-	ErrText  string `json:"err,omitempty"`
-	ExecCmp  string `json:"exec_cmp,omitempty"` // "", "equal", or a description of the difference
-	Oracle   string `json:"oracle,omitempty"`   // direct-oracle failure (property violated on the real code), "" = none
-	RefOK    bool   `json:"ref_ok"`             // the reference engine accepts the query
+	ID         int    `json:"id"`
+	Query      string `json:"query"`
+	Range      bool   `json:"range"`
+	Fallback   bool   `json:"fallback"`
+	Outcome    string `json:"outcome"` // Native | Fallback | ErrUnsupported | ErrOther
+	DFalse     int    `json:"d_false"`
+	DTrue      int    `json:"d_true"`
+	ErrText    string `json:"err,omitempty"`
+	ExecCmp    string `json:"exec_cmp,omitempty"` // "", "equal", or a description of the difference
+	Oracle     string `json:"oracle,omitempty"`   // direct-oracle failure (property violated on the real code), "" = none
+	RefOK      bool   `json:"ref_ok"`             // the reference engine accepts the query
 	NativeExec string `json:"native_exec,omitempty"`
 	Dist       bool   `json:"distributed,omitempty"` // distributed engine over remote engines without fallback
 }
